@@ -217,6 +217,7 @@ def run(ctx) -> Result:
             one(ctx, res, hist, cfg, batch, probe_dirs=(i % 7 in (3, 5)))
     pipecheck.check_model(res, "C07", batch)
     api_calls(ctx, res)
+    buffer_layer(ctx, res)
     return res
 
 
@@ -242,8 +243,24 @@ def api_calls(ctx, res: Result):
     res.notes.append("API-call part: " + op.LOCKSTEP_NOTE)
 
 
+def buffer_layer(ctx, res: Result):
+    """The gated driver lets the reader and the emitter take turns; the interleavings INSIDE the buffer (the emitter waiting in
+    DelayedQueue.get() while the reader pairs, removes and puts - a rename whose halves arrive in separate reads) are those of
+    the reader/consumer LTS the Pipeline model sits on (Grouping.v over DelayQueue.v): its lock-step tie and the
+    exactly-once / pairing / never-early oracle run here too (shared with C08 and C01)."""
+    from harness.props import c08
+    cases, metas = [], []
+    c08.buffer_campaign(ctx, res, cases, metas, 60 if not ctx.thorough else 400, corpus=False)
+    c08.compare(res, cases, metas)
+    res.notes.append("buffer layer: real InotifyBuffer + DelayedQueue under the deterministic scheduler in lock-step with Grouping.v/"
+                     "DelayQueue.v (renames cut across reads, consumer inside get() while the reader pairs) - shared with C08")
+
+
 def replay(ctx, obj) -> int:
     case = obj.get("case", obj)
+    if isinstance(case, dict) and "program" in case:
+        from harness.props import c08
+        return c08.replay(ctx, obj)
     if "prog" in case:
         from harness import obsprog as op
         return op.replay_generic(ctx, obj, [judge_api])
